@@ -87,7 +87,7 @@ func init() {
 		explain: "Deductive part (all inputs): (i) the signer cryptoSignSignature is verified for memory safety and arithmetic ranges on every path of the rejection loop, and `after`-assertions pin the specification's acceptance conditions with their exact bounds at the points where the specification has them: ||z||inf < GAMMA1-BETA, ||LowBits(w-cs2)||inf < GAMMA2-BETA, ||ct0||inf < GAMMA2, hint weight = number of non-zero hint coefficients <= OMEGA, and the z part of the signature is the canonical encoding of z; (ii) the arithmetic components are proved equal to their specification functions (C12: Montgomery/Barrett reduction, Power2Round, Decompose/HighBits/LowBits, MakeHint, UseHint, norm test, NTT tables by exhaustive table evaluation) and the encodings are proved lossless and canonical (C13); (iii) call-history independence: cryptoSign is a function of (message, secret key) only (effects back end: no randomness on the deterministic path, no package-level state, the key object is not written), and the lemma function verifLemmaSignAgain shows the same message signed again after other calls gives the identical signature. Bounded part (labelled bounded): byte identity of whole public keys, secret keys and signatures with an independent specification-level implementation of Dilithium round 3.1 level 5 written from the specification with schoolbook polynomial arithmetic modulo q (no NTT, no Montgomery form, no library function) on VERIF_SEED-derived seeds and messages for a fixed wall-time budget; the reference recognises and counts boundary cases (rejection tests met with equality or missed by one, rounding ties, sampler candidates next to the acceptance bound). NOT under functional contract: the samplers' output as a function of the XOF stream (range contracts only), 'NTT-domain product = polynomial product' beyond the table checks of C12, and the composition of the pieces into whole-key / whole-signature equality.",
 		extras: func(e *Engine, tier string, seed int) []ExtraResult {
 			sec, keys := dilBudget(tier)
-			return e.dilRefRun(sec, keys, seed)
+			return append(e.dilRefRun(sec, keys, seed), e.stubXofRun()...)
 		},
 		trusted: []string{
 			"byte identity of keys and signatures with the specification is decided only by the bounded differential run (quick: 2 seeds / 40 s, thorough: 6 seeds / 600 s); boundary cases met are counted in the evidence, boundary cases not met are not covered",
